@@ -55,13 +55,26 @@ fn rand_key(sim: &Sim) -> String {
 fn ascii_value(sim: &Sim) -> Vec<u8> {
     let n = sim.range(1, 24) as usize;
     let mut v: Vec<u8> = (0..n).map(|_| sim.range(0x20, 0x7e) as u8).collect();
-    // HTTP/2 field values must not start or end with whitespace
-    if v[0] == b' ' {
-        v[0] = b'_';
-    }
-    let l = v.len() - 1;
-    if v[l] == b' ' {
-        v[l] = b'_';
+    // RFC 9113 asks senders not to start or end a field value with whitespace; most values obey,
+    // some (1 in 8) do not: http's HeaderValue, hyper and h2 carry them unchanged, and what the
+    // application attached is what must arrive
+    if sim.chance(7, 8) {
+        if v[0] == b' ' {
+            v[0] = b'_';
+        }
+        let l = v.len() - 1;
+        if v[l] == b' ' {
+            v[l] = b'_';
+        }
+    } else {
+        match sim.draw(3) {
+            0 => v.insert(0, b' '),
+            1 => v.push(b' '),
+            _ => {
+                v.insert(0, b'\t');
+                v.push(b' ');
+            }
+        }
     }
     v
 }
@@ -145,7 +158,17 @@ pub fn apply_md(map: &mut MetadataMap, entries: &[MdEntry]) {
             if k.as_str() != e.key {
                 key_abort("C08/key-not-normalised", format!("AsciiMetadataKey::from_bytes({spelled:?}) is stored as {:?}", k.as_str()));
             }
-            let v = AsciiMetadataValue::try_from(&e.val[..]).expect("harness: ascii value");
+            // the value is built through one of the public constructors (they all take the bytes as they are)
+            let as_str = std::str::from_utf8(&e.val).expect("harness: ascii value");
+            let v: AsciiMetadataValue = match (e.val.len() * 7 + e.key.len()) % 4 {
+                0 => AsciiMetadataValue::try_from(&e.val[..]).expect("harness: ascii value"),
+                1 => as_str.parse().expect("harness: ascii value"),
+                2 => AsciiMetadataValue::try_from(as_str.to_string()).expect("harness: ascii value"),
+                _ => AsciiMetadataValue::try_from(as_str).expect("harness: ascii value"),
+            };
+            if v.as_bytes() != &e.val[..] {
+                key_abort("C08/value-constructor-alters-value", format!("an ASCII metadata value built from {:?} holds {:?}", String::from_utf8_lossy(&e.val), String::from_utf8_lossy(v.as_bytes())));
+            }
             let first = !map.contains_key(e.key.as_str());
             match (e.val.len() + e.key.len()) % 3 {
                 1 if first => {
